@@ -88,6 +88,38 @@ def c10(run):
         "seeded histories of add/overwrite/remove/disable/enable/reload/location-disable with events (one location and "
         "parent/child), indexed and linear; TLC checks which rules fire for every event and the class of every refusal")
 
+def c14(run):
+    q = run.tier == "quick"
+    for cfg in ["MC_js_value_TRUE.cfg", "MC_js_value_FALSE.cfg", "MC_js_throw_TRUE.cfg", "MC_js_throw_FALSE.cfg",
+                "MC_js_loop_TRUE.cfg", "MC_js_slow_TRUE.cfg", "MC_js_slow_FALSE.cfg"]:
+        run.model_check("JsWatchdog.tla", cfg, workers=1)
+    # the protocol as first found (unbuffered clean-up channel) must still be seen to deadlock: guards the model against vacuity
+    rc, out, dt = run.tlc("JsWatchdog.tla", "MC_js_loop_unbuffered.cfg", workers=1, label="unbuffered")
+    if "Deadlock reached" not in out:
+        raise Broken("JsWatchdog no longer exposes the deadlock of the unbuffered protocol:\n" + out[-800:])
+    drv = run.build("jsdrv")
+    out = os.path.join(run.tmp, "js.ndjson")
+    run.run_bin(drv, ["-reps", "2" if q else "12", "-out", out], timeout=1500)
+    rejected, _ = run.validate("JsTrace.tla", "JsTrace.cfg", out, "js")
+    with open(out) as f:
+        lines = f.read().split("\n")
+    for ln in rejected:
+        e = json.loads(lines[ln - 1])
+        what = "script class=%s path=%s limit=%dms needs=%dms -> %s after %dms, %s value=%s %s" % (
+            e["class"], e["path"], e["limit_ms"], e["dur_ms"], "returned" if e["returned"] else "DID NOT RETURN",
+            e["elapsed_ms"], "error" if e["err"] else "no error", json.dumps(dec(e["val"]))[:60], e["msg"][:80])
+        run.violation(what, {"header": json.loads(lines[0]), "event": e}, stage="js")
+    for ln in (2, 12, 17):
+        e = json.loads(lines[ln - 1])
+        run.sample({k: e[k] for k in ("path", "class", "limit_ms", "dur_ms", "returned", "elapsed_ms", "err")})
+    run.assumptions += ["wall-clock margins: a stopped script has to come back within limit + 1 s; every other call within 5 s "
+                        "(hard per-call watchdog 6 s); limits 50 ms and 200 ms, system default (60 s) and disabled",
+                        "script families: value (sees bindings x, y), throw, syntax error, while(true){}, busy-wait of a given duration"]
+    return run.finish(rule="script classes {value, throw, syntax, loop, slow-under, slow-over} x limits {50ms, 200ms, default, disabled} x "
+                           "paths {Location.RunJavascript, rule condition, rule action}, repeated; each recorded outcome (returned?, elapsed, "
+                           "error?, value) is validated by TLC against JsTrace (the outcome table of JsWatchdog); states/transitions: "
+                           "JsWatchdog model-checked for deadlock freedom, Returns (liveness under weak fairness) and Outcome per class")
+
 def c17(run):
     return engine_prop(run, ["MC_parents.cfg"],
         [dict(profile="system", n=n(run, 72, 900), extra=["-via", "system"])],
@@ -177,7 +209,7 @@ def c03(run):
                            "indexed and linear state, through Location.Query; TLC compares the returned bindings as a BAG with Query!Eval; "
                            "states/transitions: QueryMC (algebraic laws of Eval on all trees up to depth 1/2 x all fact subsets)")
 
-CHECKS = {"C17": c17, "C18": c18, "C01": c01, "C03": c03, "C04": c04, "C05": c05, "C02": c02, "C07": c07, "C08": c08, "C09": c09, "C10": c10, "C19": c19, "C20": c20}
+CHECKS = {"C14": c14, "C17": c17, "C18": c18, "C01": c01, "C03": c03, "C04": c04, "C05": c05, "C02": c02, "C07": c07, "C08": c08, "C09": c09, "C10": c10, "C19": c19, "C20": c20}
 
 def replay(run, path):
     rejected, out = run.validate("EngineTrace.tla", "EngineTrace.cfg", path, "replay")
